@@ -572,6 +572,80 @@ def qknap_cases(ctx, r, lines, checks):
         checks.append((site + ' vs Gen.' + which, which, 'err' if cqm is None else canon_cqm(cqm), src, bad))
 
 
+
+# ------------------------------------------------------------------------------------ quadratic assignment
+
+def qap_cases(ctx, r, lines, checks):
+    for rep in range(ctx.scale(24, 400)):
+        n = r.randint(1, 3)
+        sym = r.random() < .4
+        D = [[0] * n for _ in range(n)]; Fl = [[0] * n for _ in range(n)]
+        for i in range(n):
+            for j in range(n):
+                Fl[i][j] = r.randint(0, 7) if i != j or r.random() < .2 else 0
+                if i <= j or not sym:
+                    D[i][j] = r.randint(0, 7) if i != j or r.random() < .2 else 0
+                else:
+                    D[i][j] = D[j][i]
+        mal = None
+        k = r.random()
+        if k < .06:
+            mal = 'shapes differ'; Fl = [row + [0] for row in Fl] + [[0] * (n + 1)]
+        elif k < .12:
+            mal = 'not square'; D = D + [[1] * n]; Fl = Fl + [[1] * n]
+        asym = any(D[i][j] != D[j][i] for i in range(min(n, len(D))) for j in range(n)) if mal is None else False
+        call = f'G.quadratic_assignment({D!r}, {Fl!r})'
+        site = 'generators.quadratic_assignment'
+        cls = 'asymmetric distance matrix' if asym else 'symmetric distance matrix'
+        src = (HDR + f'D, Fl = {D!r}, {Fl!r}\nn = len(D)\ncqm = {call}\n'
+               'vs = [f"x_{i}_{j}" for i in range(n) for j in range(n)]\nassert list(cqm.variables) == vs\n'
+               'for t in itertools.product((0, 1), repeat=len(vs)):\n'
+               '    s = dict(zip(vs, t)); x = lambda i, j: s[f"x_{i}_{j}"]\n'
+               '    feas = all(sum(x(i, j) for j in range(n)) == 1 for i in range(n)) and all(sum(x(i, j) for i in range(n)) == 1 for j in range(n))\n'
+               '    assert cqm.check_feasible(s) == feas, (s, feas)\n'
+               '    if feas:\n'
+               '        loc = {i: j for i in range(n) for j in range(n) if x(i, j)}\n'
+               '        cost = sum(Fl[i][k] * D[loc[i]][loc[k]] for i in range(n) for k in range(n) if i != k)\n'
+               '        assert F(float(cqm.objective.energy(s))) == cost, (loc, float(cqm.objective.energy(s)), cost)\n')
+        try:
+            with warnings.catch_warnings():
+                warnings.simplefilter('ignore')
+                cqm = G.quadratic_assignment(D, Fl)
+        except ValueError:
+            cqm = None
+        ctx.tick('qap' + (':raises' if cqm is None else '') + (':' + mal if mal else '') + (':asymmetric' if asym else ''))
+        ctx.case(('qap', repr(D), repr(Fl)), nontrivial=cqm is not None and n > 1, sample=dict(call=call))
+        if (cqm is None) != (mal is not None):
+            ctx.fail('property', site, mal or 'valid arguments', f'{call}: ' + ('refused' if cqm is None else 'accepted'),
+                     repro=HDR + f'try:\n    {call}\n    ok = True\nexcept ValueError:\n    ok = False\nassert ok == {mal is None}\n')
+            continue
+        bad = False
+        if cqm is not None:
+            vs = [f'x_{i}_{j}' for i in range(n) for j in range(n)]
+            if list(cqm.variables) != vs or any(cqm.vartype(v) is not dimod.BINARY for v in vs):
+                bad = True
+                ctx.fail('property', site, 'variables', f'{call}: variables {list(cqm.variables)!r}', repro=src)
+            for t in itertools.product((0, 1), repeat=len(vs)) if not bad else ():
+                s = dict(zip(vs, t))
+                feas = (all(sum(s[f'x_{i}_{j}'] for j in range(n)) == 1 for i in range(n))
+                        and all(sum(s[f'x_{i}_{j}'] for i in range(n)) == 1 for j in range(n)))
+                got_f = cqm.check_feasible(s)
+                if got_f != feas:
+                    bad = True
+                    ctx.fail('property', site, 'feasibility', f'{call}: at {s!r} check_feasible={got_f}; "every facility at one location, every location one facility" gives {feas}', repro=src)
+                    break
+                if feas:
+                    loc = {i: j for i in range(n) for j in range(n) if s[f'x_{i}_{j}']}
+                    cost = sum(Fl[i][k] * D[loc[i]][loc[k]] for i in range(n) for k in range(n) if i != k)
+                    got = fr(cqm.objective.energy(s))
+                    if got != cost:
+                        bad = True
+                        ctx.fail('property', site, cls, f'{call}: assignment facility->location {loc!r}: objective {got}, quadratic-assignment cost sum_(i!=k) flow[i][k]*distance[loc(i)][loc(k)] = {cost}', repro=src)
+                        break
+        mtxt = lambda M: ';'.join(','.join(map(str, row)) for row in M) or '-'   # noqa: E731
+        lines.append(f'qap {mtxt(D)} {mtxt(Fl)}')
+        checks.append((site + ' vs Gen.quadraticAssignment', cls if cqm is not None else 'refusal', 'err' if cqm is None else canon_cqm(cqm), src, bad))
+
 # ------------------------------------------------------------------------------------ kMC-SAT: the model as a function of the drawn clauses
 
 def parse_clauses(log, n, k, m, plant):
@@ -1045,6 +1119,7 @@ def run(ctx):
     graph_cases(ctx, r, lines, checks)
     knap_cases(ctx, r, lines, checks)
     qknap_cases(ctx, r, lines, checks)
+    qap_cases(ctx, r, lines, checks)
     kmcsat_cases(ctx, r, lines, checks)
     msq_cases(ctx, r, lines, checks)
     random_cases(ctx, r)
